@@ -522,6 +522,10 @@ func (rt *referenceTracker) updateRow(table, uuid string, row ovsdb.Row) (ModelU
 	}
 
 	if len(update) > 0 {
+		// the update applies to the row as the mutations above left it
+		if mutated := updates.GetModel(table, uuid); mutated != nil {
+			model = mutated
+		}
 		err = updates.AddOperation(rt.dbModel, table, uuid, model, &ovsdb.Operation{
 			Op:    ovsdb.OperationUpdate,
 			Table: table,
